@@ -35,7 +35,9 @@ MANIFEST = dict(
           "found through their stem), ASCII names, member names distinct from class names, the 5000-file bound."),
     design="6 C13",
     engines=[dict(name="E-forest", path="harness/src/eng_forest.rs + coq/extract/eng_forest.ml",
-                  kind_free_text="differential: in-process ProjectManager on a materialised workspace (build_tree / build_tree_parallel with a chosen chunk size and pool / forced schedule through the hooks build, then prepare + supertypes + subtypes on every class and member; C14: every request kind on its own thread with a deadline, two rounds) vs extracted Coq models Forest (class tree, walkers) and Locks (lock-aware analysis)")],
+                  kind_free_text="differential: in-process ProjectManager on a materialised workspace (build_tree / build_tree_parallel with a chosen chunk size and pool / forced schedule through the hooks build, then prepare + supertypes + subtypes on every class and member; C14: every request kind on its own thread with a deadline, two rounds) vs extracted Coq models Forest (class tree, walkers) and Locks (lock-aware analysis)"),
+             dict(name="E-hiertree", path="harness/src/eng_hiertree.rs + coq/extract/eng_hiertree.ml",
+                  kind_free_text="two-phase differential at tree level: documents (stem + text) -> real lexer + parser -> tree dumps; in-process ProjectManager on the materialised workspace (index, class tree as main_loop builds it, prepareTypeHierarchy at every identifier position of every file, supertypes / subtypes of every prepared item) vs extracted HierTree.prepare / supertypes_of / subtypes_of = Forest's builder and walkers on HierTree.forest_input_of_ws of the dumped trees; oracle from the texts")],
 )
 
 ASSUMPTIONS = [
